@@ -112,6 +112,11 @@ R = [
  (r"cursor\.go:DecodeExclusive:index:x\.(cache|wip)\[", "map access"),
  # ---------------- writer.go, types.go (sink path of C19)
  (r"writer\.go:Writer\.Close:assert:w\.origW\.\(io\.Closer\)", "guard: closeOrigW is set only by Create, which passes an *os.File"),
+ (r"writer\.go:Writer\.WriteCompressed:index:seen\[ref\.Number\(\)\]", "map access"),
+ (r"writer\.go:Writer\.WriteCompressed:index:w\.xref\[ref\.Number\(\)\]", "map access"),
+ (r"types\.go:Placeholder\.Set:index:fills\[i\]", "guard: fills has len(x.pos) entries and i ranges over x.pos"),
+ (r"types\.go:Placeholder\.Set:index:x\.posRef\[i\]", "guard: x.pos and x.posRef are only ever appended to together (doFormat, method 2) and reset together (Set), i ranges over x.pos"),
+ (r"writer\.go:Writer\.Close:panic:panic\(r\)", "guard: the deferred recover in Close (fix D71) re-raises every panic that is not the object-number-overflow sentinel of Alloc; it introduces no panic of its own"),
  (r"writer\.go:Writer\.Close:index:w\.meta\.ID\[0\](?!#)$", "guard: first occurrence (fix D50): behind `len(w.meta.ID) != 2 ||` in the same condition"),
  (r"writer\.go:Writer\.Close:index:w\.meta\.ID\[[01]\]", "waiver: NewWriter stores nil or a two-element ID; a caller that replaces GetMeta().ID by a shorter slice makes Close panic (API misuse on the writing side, outside 'arbitrary input bytes'; recorded)"),
  (r"writer\.go:Writer\.OpenStream:index:", "map access"),
